@@ -38,12 +38,13 @@ EmptySeqs == [e \in E |-> [s \in Ids |-> <<>>]]
 NoWire(S) == [S EXCEPT !.wire = [e \in E |-> <<>>]]
 \* ax: case mode, pending write lengths, and the OBSERVED histories (ow: bytes offered to / accepted by Write,
 \* or: bytes returned by Read, oe: end-of-stream returned).  S.written/readOut/eof are the model's own prediction.
-InitAx == [mode |-> "none", pw |-> Zero, ow |-> EmptySeqs, or |-> EmptySeqs, oe |-> [e \in E |-> [s \in Ids |-> FALSE]]]
+InitAx == [mode |-> "none", corrupt |-> FALSE, pw |-> Zero, ow |-> EmptySeqs, or |-> EmptySeqs, oe |-> [e \in E |-> [s \in Ids |-> FALSE]]]
 InitStats == [drift |-> 0, wirebad |-> 0, pred |-> 0, cases |-> 0, dlv |-> 0, hb |-> 0, hbspur |-> 0, hbundet |-> 0]
 \* the state the properties judge: protocol flags driven by the recorded calls, histories as observed
 Judged(S, a) == [S EXCEPT !.written = a.ow, !.readOut = a.or, !.eof = a.oe]
 
 Script == ax.mode = "script"
+DriftNote(i) == IF "PrintDrift" \in Want THEN PrintT(<<"DRIFT", i>>) ELSE TRUE
 B2N(b) == IF b THEN 1 ELSE 0
 Blk(r) == Has(r, "blk") /\ r.blk
 ModeOf(n) == CASE n = 0 -> "clear" [] n = 1 -> "past" [] n = 2 -> "far" [] OTHER -> "soon"
@@ -93,7 +94,7 @@ RetOpen(S, r) ==
                     [] r.err = "canceled" -> OpenOutcome(S, e, r.s) = "pending"
                     [] r.err = "muxclosed" -> ~Alive(S)
                     [] OTHER -> FALSE]
-  ELSE [S |-> S, ok |-> TRUE]
+  ELSE [S |-> S, ok |-> ~Script \/ r.err # "exhausted" \/ Exhausted(S, e)]
 
 RetAccept(S, r) ==
   LET e == r.e IN
@@ -149,7 +150,7 @@ ChunkInOrder(e, s, d) ==
   LET pos == Len(ax.or[e][s])  wr == ax.ow[Peer(e)][s] IN
   pos + Len(d) <= Len(wr) /\ \A i \in 1..Len(d) : d[i] = wr[pos + i]
 ReadFails(i, S, r) ==
-  IF r.op # "read" \/ r.s = 0 THEN <<>>
+  IF r.op # "read" \/ r.s = 0 \/ ax.corrupt THEN <<>>
   ELSE LET e == r.e  s == r.s IN
        Chk(Want, i, "C23_InOrder", ChunkInOrder(e, s, r.d))
     \o Chk(Want, i, "C23_NoCrossTalk", Range(r.d) \subseteq Range(ax.ow[Peer(e)][s]))
@@ -166,6 +167,8 @@ C23_Complete(S) == \A e \in E, s \in Ids : (S.ss[e][s].api /\ ~S.ss[e][s].cl) =>
 Streamy == ax.mode \in {"script", "free"}
 EndFails(i, S0, r) ==
   LET S == Judged(S0, ax) IN
+  IF ax.corrupt THEN <<>>       \* crafted messages were injected: the receiver model is compared (drift), nothing is judged
+  ELSE
      Chk(Want, i, "C24_StaysUp", C24_StaysUp(r))
   \o Chk(Want, i, "C24_NoViolation", C24_NoViolation(Observed(S, r)))
   \o Chk(Want, i, "C23_InOrder", C23_InOrder(S))
@@ -194,21 +197,22 @@ WellFormed(r) ==
 Next3(i, r) ==   \* <<new st, new ax, new stats, failures>>
   IF ~WellFormed(r) THEN <<st, ax, stats, <<Fail(i, "TraceAccepted")>>>>
   ELSE IF r.ev = "Begin" THEN
-       <<InitS(r.w, r.b), [InitAx EXCEPT !.mode = r.mode], [stats EXCEPT !.cases = @ + 1], <<>>>>
+       <<[InitS(r.w, r.b) EXCEPT !.idmax = IF Has(r, "idmax") THEN r.idmax ELSE MaxId + 1000],
+         [InitAx EXCEPT !.mode = r.mode, !.corrupt = Has(r, "corrupt") /\ r.corrupt], [stats EXCEPT !.cases = @ + 1], <<>>>>
   ELSE IF r.ev = "Call" THEN <<CallState(st, r), CallAx(r), stats, <<>>>>
   ELSE IF r.ev = "Ret" THEN
        LET res == RetResult(st, r) IN
-       <<res.S, RetAx(r), [stats EXCEPT !.pred = @ + B2N(Script), !.drift = @ + B2N(~res.ok \/ ~RetWellObserved(r))],
+       <<res.S, RetAx(r), [stats EXCEPT !.pred = @ + B2N(Script), !.drift = @ + B2N((~res.ok \/ ~RetWellObserved(r)) /\ DriftNote(i))],
          ReadFails(i, st, r)>>
   ELSE IF r.ev = "Wire" THEN
        <<st, ax, [stats EXCEPT !.wirebad = @ + B2N(r.s < 1 \/ r.s > MaxId \/ ~SenderRule(st, r.e, MsgOf(r)))], <<>>>>
   ELSE IF r.ev = "Dlv" THEN
-       (IF r.s < 1 \/ r.s > MaxId THEN <<st, ax, [stats EXCEPT !.drift = @ + 1], <<>>>>
+       (IF r.s < 1 \/ r.s > MaxId THEN <<st, ax, [stats EXCEPT !.drift = @ + B2N(DriftNote(i))], <<>>>>
         ELSE <<NoWire(RecvMsg(st, r.e, MsgOf(r))), ax,
                [stats EXCEPT !.dlv = @ + 1, !.wirebad = @ + B2N(~SenderRule(st, Peer(r.e), MsgOf(r)))], <<>>>>)
   ELSE IF r.ev = "End" THEN
        <<st, ax,
-         [stats EXCEPT !.drift = @ + B2N(Script /\ \E e \in E : st.perr[e] # Observed(st, r).perr[e])],
+         [stats EXCEPT !.drift = @ + B2N((Script /\ ((\E e \in E : st.perr[e]) # (\E e \in E : Observed(st, r).perr[e]))) /\ DriftNote(i))],
          EndFails(i, st, r)>>
   ELSE IF r.ev \in {"Block", "Hol", "Backlog"} THEN <<st, ax, stats, TimeFails(i, r)>>
   ELSE IF r.ev = "Heart" THEN      \* heartbeat scenario: conformance counters only (MuxHeart states the design)
